@@ -21,6 +21,7 @@ def run(group, func, quick=None, thorough=None, tier="", note=""):
 
 groups = {
     "root": {"pkg": ".", "hdir": "harness/root", "tags": ""},
+    "s3": {"pkg": "s3", "hdir": "harness/s3", "tags": ""},
 }
 
 props = {}
@@ -134,6 +135,8 @@ claims = {
             "The follower's applied TXID in the kill harness is a ghost recorded at the applyLTXFile cut; kill points are file-system operations of the follower only.", "DESIGN.md 5 (C16)"),
     "C05": ("The real Replica.syncOnce/sync/uploadLTXFile/calcPos/MaxLTXFileInfo/SetPos, DB.Pos/MaxLTX (real LTX decoder) and Compactor.Compact are executed under every assignment of {ok, fail-before, fail-mid-upload, fail-after-effect} to each client call for R faulty rounds followed by a fault-free round: the remote level 0 is 1..max after every call, a nil non-limited result means the local position is stored, the cached position is never ahead of the replica and is forgotten on error, the fault-free round catches up, stored bytes equal the local files; a failed compaction leaves no partial file and no cache entry for a missing file, and a retry writes the right range.",
             "Faults are those of the ReplicaClient interface; the cached position is assumed not ahead of the database (see C04).", "DESIGN.md 5 (C05)"),
+    "C20": ("Rely/guarantee step for the real s3.Leaser (AcquireLease, RenewLease, ReleaseLease, readLease, writeLease, isPreconditionFailed, isNotFoundError) and Lease.IsExpired: from every store state consistent with 'an unexpired lease is the stored record' and with the store havocked under that same condition before each of the client's requests while time advances, each operation preserves the witness client's lease while it is unexpired, issues only conditional writes, and on success leaves its own lease as the stored record with the right owner, expiry and generation; a takeover happens only after expiry and increases the generation by one; with a foreign ETag renew and release return ErrLeaseNotHeld and leave the store unchanged. Any number of other clients is covered by the havoc; mutual exclusion of two unexpired holders follows and is asserted.",
+            "S3 semantics, a single clock and distinct owners are assumptions.", "DESIGN.md 5 (C20), Appendix D.5"),
 }
 na_reasons = {
     "C12": "quantifies over goroutine interleavings and the Go memory model; a sequential SSA symbolic interpreter cannot soundly decide races or deadlocks and no concurrency-aware engine for Go exists in this image (DESIGN.md 6)",
@@ -221,6 +224,26 @@ props["C05"] = {
     ],
     "stubs": ["ReplicaClient mock with per-call fault decisions and stored bytes", "file-system model for the local shadow files", "prometheus / slog no-op", "io.Pipe buffer model"],
     "outside": ["more than N local files / R faulty rounds", "faults of the local file system (C11/C03)", "retry pacing (DB.syncReplicaWithRetry back-off timers)"],
+}
+
+props["C20"] = {
+    "level": "model_checking", "validate": 4,
+    "runs": [
+        run("s3", "VxC20Acquire", {}, {}),
+        run("s3", "VxC20Takeover", {}, {}),
+        run("s3", "VxC20Renew", {}, {}),
+        run("s3", "VxC20Release", {}, {}),
+        run("s3", "VxC20Stale", {}, {}),
+    ],
+    "assumptions": [
+        "S3 conditional-write semantics over one object (DESIGN.md D.5): GET returns (body, ETag); PUT If-None-Match:* succeeds iff absent; PUT/DELETE If-Match succeed iff the stored ETag matches; ETags are injective names of the stored bytes",
+        "rely condition: between any two requests of the client under test the object may be replaced by anything (absent, the witness's record, the client's own old record, a third owner's record) as long as every client's unexpired lease is still the stored record (the other clients run the same protocol)",
+        "one monotone clock shared by all instances; time advances by 0..2 s before every request; expiry instants are half a second off whole seconds",
+        "JSON model for litestream.Lease: an injective fixed-layout encoding with dec(enc(x)) = x (the native twin uses encoding/json)",
+        "owners are distinct per client",
+    ],
+    "stubs": ["S3API mock (conditional requests over one object)", "encoding/json model for Lease", "clock model with explicit steps", "log/slog no-op"],
+    "outside": ["S3's actual conditional-write behaviour", "clock skew between instances", "lost responses / transport faults (the property quantifies over interleavings of requests)", "the generation restarting at 1 after an explicit release (by design; the repository's own test expects it)"],
 }
 
 rewrites = [
